@@ -96,7 +96,7 @@ m = {
  "engines": [{"name": "jsverif", "path": "jsverif/", "serves_properties": [c['property_id'] for c in checks],
               "kind_free_text": "runtime monitors + reference-model oracles over generated workloads executed on the real library (pure Python, /venv interpreter)"}],
  "checks": checks,
- "notes": "Runtime monitoring only. VERIF_SEED and VERIF_TIER honoured. Exit 0 held / 1 VIOLATION / 2 INCONCLUSIVE (monitor not reached). Known findings: known_findings.json.",
+ "notes": "Runtime monitoring only. VERIF_SEED and VERIF_TIER honoured. Exit 0 held / 1 VIOLATION / 2 INCONCLUSIVE (monitor not reached). Known findings: known_findings.json. Every run also executes slices of its cases in subprocesses under another PYTHONHASHSEED and under python -O with unusual numpy / matplotlib / warnings settings (recorded in each witness, restored by --replay; JSVERIF_NO_HASHSEED_LANE=1 switches these lanes off).",
  "not_applicable": na,
 }
 json.dump(m, open('/verif/MANIFEST.json', 'w'), indent=1, ensure_ascii=False)
